@@ -214,6 +214,32 @@ def fold_compare_ops(m: Model):
         results.append((ok, 'hashitem', f'items with equal sort_tuple hash to {ha} / {hb}, a different key to {hc}: equal items must hash equally (by sort_tuple alone)'))
     except EXC as e:
         results.append((False, 'hashitem', f'raises {e}'))
+    # the hash is cached in a slot and pickled with the item: what is hashed must mean the same in every process -- ints and
+    # tuples of ints (the sort tuple); a class object hashes by its address, a str by the per-process seed
+    hashed = []
+
+    class LexicalCls:
+        "stands for the class object `__class__` inside lang/lex.py"
+    ith = Interp(dict(hash=lambda x: (hashed.append(x), 12345)[1]), where='lang/lex.py hashitem')
+    ith.g['__class__'] = LexicalCls
+    ith.g['Lexical'] = LexicalCls
+
+    def portable(x):
+        if isinstance(x, bool) or x is None:
+            return True
+        if isinstance(x, int):
+            return True
+        if isinstance(x, tuple):
+            return all(portable(y) for y in x)
+        return False
+    try:
+        ith.call(hi, [A])
+        bad = [x for x in hashed if not portable(x)]
+        results.append((bool(hashed) and not bad, 'hashitem across processes',
+                        f'hashes {hashed!r}: that contains something other than ints (a class object, a string), whose hash differs from process to process -- '
+                        f'the cached hash is pickled with the item, and unpickling it in another process conflicts with the recomputed one'))
+    except EXC as e:
+        results.append((False, 'hashitem across processes', f'raises {e}'))
     try:
         ia = it.call(ii, [A])
         results.append((ia == ('Constant', 'SPEC-A'), 'identitem', f'gives {ia!r}, expected (class name, spec)'))
@@ -491,6 +517,46 @@ def fold_readonly(m: Model):
         results.append((ok, f'{n}: re-assigning an attribute with an equal but different object',
                         f'`item.operator = <object equal to the current value>` is {outcome} and the attribute is now {"unchanged" if ok else "the other object"}; '
                         f'expected the original object to stay (an enum member equals its name: `s.operator = "Negation"` would put a str in its place)'))
+    # 3c. lazily computed caches (`@lazy.prop def atomics` caches in the slot `_atomics`) are part of the item: nobody but the lazy
+    #     getter may fill them -- a value planted before the first read *is* the derived attribute from then on
+    for n in names[3:]:
+        ref = ClassRef(LEX, n)
+        if 'LexicalEnum' in [c.qualname for c in m.mro(ref)]:
+            continue
+        lazies = []
+        for c in m.mro(ref):
+            if not c.module.startswith('pytableaux.lang'):
+                continue
+            try:
+                cdx = m.clsdef(c)
+            except Exception:
+                continue
+            for st in cdx.body:
+                if isinstance(st, ast.FunctionDef) and any(ast.unparse(d).split('(')[0] in ('lazy.prop', 'lazy.get') for d in st.decorator_list):
+                    # (ident and hash are read when the item enters the construction cache, i.e. before anyone else holds it)
+                    if st.name not in lazies and st.name not in ('ident', 'hash'):
+                        lazies.append(st.name)
+        if not lazies:
+            continue
+        C = byname[n]
+        try:
+            setter, owner = resolve(ref)
+        except EXC:
+            continue
+        planted = []
+        for lz in lazies:
+            inst = C()
+            try:
+                setter(inst, '_' + lz, 'PLANTED')
+                if getattr(inst, '_' + lz, None) == 'PLANTED':
+                    planted.append(lz)
+            except AttributeError:
+                pass
+            except EXC as e:
+                planted.append(f'{lz} (raises {type(e).__name__})')
+        results.append((not planted, f'{n}: planting a lazily computed attribute',
+                        f'`item._{(planted or lazies)[0].split(" ")[0]} = value` on a finished {n} that has not computed it yet is accepted for {planted}: the item then reports the planted '
+                        f'value as its {"/".join(planted) or "attribute"} -- expected AttributeError (only the lazy getter fills its cache)'))
     # 4. names with leading underscores are attributes like any other (the read-only flag itself, Enum's _value_ / _name_)
     for n in names[3:]:
         ref = ClassRef(LEX, n)
